@@ -66,6 +66,14 @@ func chainSyncPipelineSetup(s *rt.Sim, tier string) func() {
 		// library's default (30 s) is what protects a roll-backward; apply and validation then
 		// dwell for at most 50 ms per block, two orders of magnitude below what could use it up
 		drainUnset := rt.Choose("cfg.x", 2) == 1
+		// F15 (own stream): the client is stopped, or the connection closed, by another task while
+		// the stream flows - with luck while a roll-backward waits for the pipeline to drain. The
+		// order of what the application has seen by then must still be the server's order
+		stopMid := rt.Choose("cfg.x", 4) == 3
+		stopMidAt := 1 + rt.Choose("cfg.x", 12)
+		stopMidClose := rt.Choose("cfg.x", 2) == 1
+		stopMidFired := false
+		var cConn, sConn *ouroboros.Connection
 		blocks := fixBlocks()
 		nops := 3 + pick("cfg", 30)
 		var hist []csOp
@@ -130,6 +138,18 @@ func chainSyncPipelineSetup(s *rt.Sim, tier string) func() {
 			e := &ev{kind: "apply", idx: int(item.Tip().BlockNumber) - 1, start: rt.Stamp(), tip: item.Tip()}
 			evs = append(evs, e)
 			noteOutstanding()
+			if stopMid && !stopMidFired && len(evs) >= stopMidAt && cConn != nil {
+				stopMidFired = true
+				rt.Fault("F15.stop-while-streaming")
+				go func() {
+					sleep(oneOf("op", 0, time.Millisecond, 30*time.Millisecond, 400*time.Millisecond))
+					if stopMidClose {
+						cConn.Close()
+					} else {
+						_ = cConn.ChainSync().Client.Stop()
+					}
+				}()
+			}
 			switch {
 			case drainUnset && slowApply > 0:
 				sleep(oneOf("op", time.Millisecond, 20*time.Millisecond, 50*time.Millisecond))
@@ -244,7 +264,6 @@ func chainSyncPipelineSetup(s *rt.Sim, tier string) func() {
 		sCfg := chainsync.NewConfig(chainsync.WithRequestNextFunc(requestNext), chainsync.WithFindIntersectFunc(findIntersect))
 		co := connOpts{ntn: false, magic: 42}
 		so := connOpts{ntn: false, magic: 42, server: true}
-		var cConn, sConn *ouroboros.Connection
 		var cErr, sErr error
 		cRet, sRet := false, false
 		go func() {
@@ -279,6 +298,45 @@ func chainSyncPipelineSetup(s *rt.Sim, tier string) func() {
 			return
 		}
 		expect := len(hist)
+		if stopMid {
+			// wait until the stop happened (or the history ran out first) and things are quiet
+			for i := 0; i < 9000 && !stopMidFired && len(evs) < expect && len(cw.errs) == 0 && len(sw.errs) == 0; i++ {
+				sleep(200 * time.Millisecond)
+			}
+			sleep(2 * time.Minute)
+			for i := 0; i < 600 && len(evs) > 0 && evs[len(evs)-1].end == 0; i++ {
+				sleep(200 * time.Millisecond)
+			}
+			if stopMidFired {
+				rt.Hit("cspl.stopped-while-streaming")
+			}
+			sdesc := fmt.Sprintf("ntc+pipeline limit=%d ops=%d, client %s by another task after %d application events", limit, len(hist), map[bool]string{true: "connection closed", false: "stopped"}[stopMidClose], stopMidAt)
+			for _, b := range evs {
+				if b.kind != "back" || b.idx < 0 || b.idx >= len(hist) {
+					continue
+				}
+				for _, a := range evs {
+					if a.kind == "apply" && a.idx < b.idx && (a.start > b.start || a.end == 0 || a.end > b.start) {
+						cls := "C43/rollback-before-drain"
+						if os.Getenv("VERIF_PROPERTY") == "C21" {
+							cls = "C21/callback-order"
+						}
+						rt.Violate(cls, "%s: the roll-backward callback of update #%d began at event %d, but the apply call of block #%d, served before it, started at event %d and ended at %d", sdesc, b.idx, b.start, a.idx, a.start, a.end)
+						finish()
+						return
+					}
+				}
+			}
+			for i, e := range evs {
+				if i >= len(hist) || e.idx != i {
+					rt.Violate("C21/callback-order", "%s: application event #%d is update #%d", sdesc, i, e.idx)
+					finish()
+					return
+				}
+			}
+			finish()
+			return
+		}
 		for i := 0; i < 9000 && len(evs) < expect && len(cw.errs) == 0 && len(sw.errs) == 0; i++ {
 			sleep(200 * time.Millisecond)
 		}
